@@ -92,6 +92,13 @@ def shapes(tier, seed):
                 address_bits=8, binary=True, expect=['ok'], data_blocks=[('blk', Sym('ba', 0xFB, 0xFF), 4, 0x55)]))
     S.append(mk('predef-vs-two-lines', [('org', V('a0'), None), KINDS['d2'], ('org', V('a1'), None), KINDS['i3']], ['a0', 'a1'],
                 binary=True, data_blocks=[('blk', Sym('ba', 0, 9), Sym('bn', 1, 3), 7)]))
+    # several predefined blocks: the order in which the definition lists them carries no meaning (either may be lower)
+    S.append(mk('two-predefs-any-order', [('org', V('a0'), None), KINDS['d2']], ['a0'],
+                data_blocks=[('blk1', Sym('ba', 0, 40), 3, 7), ('blk2', Sym('bb', 0, 40), 2, 9)]))
+    S.append(mk('two-predefs-listed-descending', [('org', V('a0'), None), KINDS['i3']], ['a0'], binary=True,
+                data_blocks=[('blk1', Sym('ba', 20, 22), 2, 7), ('blk2', Sym('bb', 10, 12), Sym('bn', 1, 2), 9)]))
+    S.append(mk('three-predefs-no-lines', [], [], expect=['ok', 'rejected'],
+                data_blocks=[('blk1', Sym('ba', 0, 30), 2, 7), ('blk2', Sym('bb', 0, 30), 2, 9), ('blk3', Sym('bc', 0, 30), 1, 5)]))
     # zones: a line in zone Z (zone-relative origin) against a line placed absolutely
     S.append(mk('zone-relative-vs-absolute',
                 [('org', V('a0'), 'Z'), KINDS['d2'], ('org', V('a1'), None), KINDS['i3']], ['a0', 'a1'],
